@@ -1,0 +1,18 @@
+//go:build verif
+
+// Contracts for the deductive verifier in /verif (comment-only file).
+package zstd
+
+// Assumed (trusted): acquiring a decoder touches none of the caller's state.
+//@ func NewReadCloser
+//@   trusted
+//@   modifies nothing
+//@   ensures result1 == nil ==> result0 != nil
+// Assumed: an encoder handed out by a pool is a streaming writer of its own
+// (not a bytes.Buffer), and acquiring it touches none of the caller's state.
+//@ iface Pool.NewEncoder
+//@   modifies nothing
+//@   ensures err == nil ==> result0 != nil && !typeis(result0, "*bytes.Buffer")
+//@ iface Pool.NewDecoder
+//@   modifies nothing
+//@   ensures err == nil ==> result0 != nil
